@@ -10,6 +10,7 @@ import (
 	"github.com/tjfoc/gmsm/gmtls"
 
 	"verifharness/hx"
+	"verifharness/ref/rgmssl"
 	"verifharness/wire"
 )
 
@@ -55,6 +56,7 @@ type Endpoint struct {
 type Result struct {
 	Client, Server Endpoint
 	C2S, S2C       []byte // raw bytes on the wire per direction
+	Log            []rgmssl.Chunk // the same bytes in global order of transmission
 	Stalled        bool
 	Hub            *wire.Hub
 }
@@ -111,8 +113,14 @@ func Run(ccfg, scfg *gmtls.Config, sc Script) *Result {
 	cw, sw := hub.Pipe(ca, sa)
 	res := &Result{Hub: hub}
 	var mu sync.Mutex
-	cw.TapOut(func(b []byte) { res.C2S = append(res.C2S, b...) })
-	sw.TapOut(func(b []byte) { res.S2C = append(res.S2C, b...) })
+	cw.TapOut(func(b []byte) {
+		res.C2S = append(res.C2S, b...)
+		res.Log = append(res.Log, rgmssl.Chunk{FromClient: true, Data: append([]byte(nil), b...)})
+	})
+	sw.TapOut(func(b []byte) {
+		res.S2C = append(res.S2C, b...)
+		res.Log = append(res.Log, rgmssl.Chunk{FromClient: false, Data: append([]byte(nil), b...)})
+	})
 	if sc.Setup != nil {
 		sc.Setup(cw, sw)
 	}
@@ -158,10 +166,11 @@ func Run(ccfg, scfg *gmtls.Config, sc Script) *Result {
 			sw.Close()
 		}
 	}
-	cdone := hub.Go(func() { side(&res.Client, gmtls.Client(cw, ccfg), sc.ClientSend, sc.ClientFrags) })
-	sdone := hub.Go(func() { side(&res.Server, gmtls.Server(sw, scfg), sc.ServerSend, sc.ServerFrags) })
-	<-cdone
-	<-sdone
+	done := hub.GoAll(
+		func() { side(&res.Client, gmtls.Client(cw, ccfg), sc.ClientSend, sc.ClientFrags) },
+		func() { side(&res.Server, gmtls.Server(sw, scfg), sc.ServerSend, sc.ServerFrags) })
+	<-done[0]
+	<-done[1]
 	res.Stalled = hub.Stalled
 	return res
 }
